@@ -121,6 +121,9 @@ func body(c cfg, r *run) func(*vsched.Exec) {
 				if strings.HasPrefix(c.Kind, "newrelic") && len(r.faults)%2 == 0 {
 					return bk.HTTPAnswer{Status: 429, Header: http.Header{"Retry-After": []string{"1"}}}
 				}
+				if strings.HasPrefix(c.Kind, "otlp") && (c.Always != 0 || len(r.faults)%2 == 1) {
+					return bk.HTTPAnswer{Status: 503} // an error status with an empty body (what a proxy sends)
+				}
 				return bk.HTTPAnswer{Status: 503, Body: []byte("busy")}
 			case 2:
 				return bk.HTTPAnswer{Err: errors.New("connection reset")}
